@@ -11,9 +11,13 @@ TRACE_SPEC = 'InputTrace'
 RULE = ('stimulus = (kind, validator tables over a value domain of 3..6 values, initdef, restored '
         'value, expired value, put sequence); distinct = SHA-1 of canonical JSON; non-trivial = '
         'the sequence contains at least one accepted and one rejected put')
-KMAX = 6
+KMAX = 8
 # concrete Python values for the abstract ids 1..6 (pairwise unequal, hashable)
-VALS = ['<unused>', None, 10, 'b', 2.5, ('t', 1), 0]        # id 1 is None: the default 'expired' value
+# ids 1..6 are pairwise unequal; id 7 (10.0) equals id 2 (10) and id 8 (False) equals id 6 (0) while
+# being values of another type: 'allowed' cannot tell them apart (membership is equality), 'check'
+# and 'schema' can and do
+VALS = ['<unused>', None, 10, 'b', 2.5, ('t', 1), 0, 10.0, False]     # id 1 is None: the default 'expired' value
+TWINS = {7: 2, 8: 6}
 TRUTHY = [True, 1, 'yes', [0]]
 FALSY = [False, 0, '', None, []]
 
@@ -49,6 +53,8 @@ def _random_cfg(rnd, k):
     # the output event of an Input fails with a ValueError of its own whenever the output becomes
     # this value: that is an error of the simulation, not a rejected put
     cfg['outfail'] = rnd.randint(1, k) if kind == 'input' and rnd.random() < 0.2 else 0
+    cfg['outfail'] = TWINS.get(cfg['outfail'], cfg['outfail'])
+    cfg['canon'] = [TWINS.get(v, v) for v in range(1, KMAX + 1)]
     return cfg
 
 
@@ -59,6 +65,9 @@ def stimuli(tier, seed, ctx):
     for i in range(n):
         k = 3 if i % 2 == 0 else rnd.randint(4, KMAX)
         cfg = _random_cfg(rnd, k)
+        for tw, orig in TWINS.items():
+            if tw <= k:
+                cfg['allowed'][tw - 1] = cfg['allowed'][orig - 1]
         ln = rnd.randint(1, 6) if rnd.random() < 0.7 else rnd.randint(7, 14)
         puts = [[rnd.randint(1, k), cfg['kind'] == 'exp' and rnd.random() < 0.3] for _ in range(ln)]
         out.append({'cfg': cfg, 'puts': puts})
@@ -70,6 +79,12 @@ def stimuli(tier, seed, ctx):
                 for seq in itertools.product([1, 2, 3], repeat=ln):
                     out.append({'cfg': cfg, 'puts': [[v, False] for v in seq]})
     return out
+
+
+def _cid(x):
+    """id of the equality class (what an output is compared by)"""
+    v = _vid(x)
+    return TWINS.get(v, v)
 
 
 def _vid(x):
@@ -122,7 +137,7 @@ def execute(stim):
     def build(circuit):
         if cfg.get('outfail'):
             def picky(data):
-                if _vid(data['value']) == cfg['outfail']:
+                if _cid(data['value']) == cfg['outfail']:
                     raise ValueError('scripted failure of an output event filter')
                 return True
             sink = edzed.Input('sink', initdef=None)
@@ -135,7 +150,7 @@ def execute(stim):
         return blk
 
     def oid(blk):
-        return 0 if blk.output is edzed.UNDEF else _vid(blk.output)
+        return 0 if blk.output is edzed.UNDEF else _cid(blk.output)
 
     async def script(circuit, blk, loop, clock):
         log.append({'ev': 'construct', 'refused': False, 'out': oid(blk)})
